@@ -142,6 +142,7 @@ pub fn u2(thorough: bool) -> Vec<Ty> {
     s.extend(fold_sensitive());
     s.extend(nested_unions());
     s.extend(function_unions());
+    s.extend(tuple_length_unions());
     s.into_iter().collect()
 }
 
@@ -233,6 +234,24 @@ pub fn function_unions() -> Vec<Ty> {
             out.push(Ty::union([f.clone(), g.clone()]));
         }
     }
+    out
+}
+
+/// Unions of three and more tuple types of different lengths (and of function types returning
+/// them): queries that fold over the members (shortest length, component at an index) must not
+/// depend on which member comes first.
+pub fn tuple_length_unions() -> Vec<Ty> {
+    let tup = |n: usize| Ty::Tup((0..n).map(|k| if k % 2 == 0 { Ty::Int } else { Ty::Str }).collect());
+    let mut out = vec![
+        Ty::union([tup(2), tup(3), tup(4)]),
+        Ty::union([tup(2), tup(3), tup(4), tup(5), tup(6)]),
+        Ty::union([tup(2), tup(4), Ty::Tup(vec![Ty::Float, Ty::Float, Ty::Float])]),
+        Ty::union([Ty::func(vec![], tup(2)), Ty::func(vec![], tup(3)), Ty::func(vec![], tup(4))]),
+        Ty::union([Ty::func(vec![Ty::Int], Ty::Int), Ty::func(vec![Ty::Int, Ty::Int], Ty::Int), Ty::func(vec![Ty::Int, Ty::Int, Ty::Int], Ty::Int)]),
+        Ty::union([Ty::arr(tup(2)), Ty::arr(tup(3)), Ty::arr(tup(4))]),
+    ];
+    out.push(Ty::arr(out[0].clone()));
+    out.push(Ty::mutc(out[0].clone()));
     out
 }
 
